@@ -52,9 +52,9 @@ def run(ctx):
     for init, inv, n in (('Init', 'IndInv', 0), ('IndInv', 'IndInv', 1), ('IndInv', 'AtMostOneServing', 0),
                          ('IndInv', 'NonOwnerWriteRejectedAct', 1), ('IndInv', 'CampaignOnlyWhenNoRecordAct', 1)):
         ctx.apalache('election', 'ElectionInd', init, inv, n)
-    seeds = [ctx.seed] if q else [ctx.seed + k for k in range(3)]
+    seeds = [ctx.seed] if q else [ctx.seed + k for k in range(6)]
     for sd in seeds:
-        behs = ctx.simulate('election', 'Election', 'Sim_Election.cfg', num=48 if q else 240, depth=14, seed=sd)
+        behs = ctx.simulate('election', 'Election', 'Sim_Election.cfg', num=48 if q else 480, depth=14, seed=sd)
         bj = os.path.join(ctx.dir, 'behs.json')
         json.dump(behs, open(bj, 'w'))
         tr = os.path.join(ctx.dir, 'election_%d.ndjson' % sd)
